@@ -10,7 +10,11 @@ const YAML_FENCE: &str = "---";
 
 pub fn parse_frontmatter(input: &str) -> Option<FrontMatterSplit> {
     let mut fences = fences(input, YAML_FENCE);
-    let (_, yaml_start) = fences.next()?;
+    let (first_fence, yaml_start) = fences.next()?;
+    if first_fence != 0 {
+        // the frontmatter is only at the top of the document
+        return None;
+    }
     let (yaml_end, cooklang_start) = fences.next()?;
     let yaml_text = &input[yaml_start..yaml_end];
     let cooklang_text = &input[cooklang_start..];
